@@ -325,11 +325,21 @@ where
         self.retain_mut(|i, p| predicate(&*i, &*p));
     }
 
-    pub fn retain_mut<F>(&mut self, predicate: F)
+    pub fn retain_mut<F>(&mut self, mut predicate: F)
     where
         F: FnMut(&mut I, &mut P) -> bool,
     {
-        self.map.retain2(predicate);
+        // Run the predicate on every element before anything is removed: if it
+        // panics, `map`, `heap` and `qp` still describe the same elements.
+        // (Unwinding out of `IndexMap::retain2` would leave the map with
+        // shifted entries and a stale hash table, which the unchecked
+        // indexing of this crate cannot tolerate.)
+        let mut keep = Vec::with_capacity(self.size);
+        for (item, priority) in self.map.iter_mut2() {
+            keep.push(predicate(item, priority));
+        }
+        let mut keep = keep.into_iter();
+        self.map.retain2(|_, _| keep.next().unwrap_or(true));
         if self.map.len() != self.size {
             self.size = self.map.len();
             self.heap = (0..self.size).map(Index).collect();
